@@ -130,6 +130,10 @@ func runProp(t *testing.T, pd *propDef) {
 		if s == nil {
 			return nil
 		}
+		// suffix markers such as <drain> / <probe> are not events: the suffix oracle re-executes them
+		for len(trace) > 0 && strings.HasPrefix(trace[len(trace)-1], "<") {
+			trace = trace[:len(trace)-1]
+		}
 		st, x, post := runTrace(pd, s, trace, true)
 		out := st.Violations
 		if pd.post != nil && x != nil && post != nil {
